@@ -376,7 +376,7 @@ Qed.
 
 Theorem raman_allowed_spec : forall prev maxl,
   raman_allowed prev maxl = true <->
-  exists lcs, prev = NFiber lcs /\ Forall (fun lc => lc < maxl * (1 # 1000)) lcs.
+  exists lcs, prev = NFiber lcs /\ Forall (fun lc => lc < maxl) lcs.
 Proof.
   intros prev maxl. unfold raman_allowed. destruct prev as [b p | lcs |].
   - split; [discriminate | intros (l & H & _); discriminate].
@@ -457,7 +457,7 @@ Theorem sel_raman_only_if_allowed : forall nd prev next bmin bmax maxl gain pt e
   NoDup (map a_name lib) -> n_variety nd = ""%string ->
   auto_select nd prev next bmin bmax maxl gain pt ext nf lib = Ok (s, red) ->
   a_raman s = true ->
-  exists lcs, prev = NFiber lcs /\ Forall (fun lc => lc < maxl * (1 # 1000)) lcs.
+  exists lcs, prev = NFiber lcs /\ Forall (fun lc => lc < maxl) lcs.
 Proof.
   intros nd prev next bmin bmax maxl gain pt ext nf lib s red Hnd Hv Hsel Hr.
   destruct (auto_select_spec _ _ _ _ _ _ _ _ _ _ _ _ _ Hnd Hv Hsel) as (_ & _ & H & _).
